@@ -94,6 +94,10 @@ func (o *histogramOperator) Next(ctx context.Context) ([]model.StepVector, error
 	}
 
 	if len(scalars) == 0 {
+		// Evaluate the vector argument to its end: an error in it fails the query.
+		if err := model.Drain(ctx, o.vectorOp, nil); err != nil {
+			return nil, err
+		}
 		return nil, nil
 	}
 
